@@ -168,6 +168,66 @@ def faulted_pool_scenarios(ctx):
         shutil.rmtree(base, ignore_errors=True)
 
 
+def follow_links_race_scenarios(ctx):
+    """`-L` with ONE input path under which many directories (and files) are each reachable through two or three symbolic
+    links: the walker threads that resolve the links of one target race for the visited set.  Whatever thread wins, the body
+    must be the one of the single-threaded run and list no path twice.  A long user-wide ignore file (matching nothing) widens
+    every window between looking an entry up and acting on it."""
+    import shutil
+    for i in range(ctx.pick(2, 10)):
+        rng = ctx.rng.fork()
+        base = os.path.realpath(os.path.join(ctx.scratch, "lrace%d" % i))
+        shutil.rmtree(base, ignore_errors=True)
+        os.makedirs(os.path.join(base, "xdg", "git"))
+        with open(os.path.join(base, "xdg", "git", "ignore"), "w") as f:
+            for k in range(1500):
+                f.write("*gen%d*cache%d*tmp%d?\n" % (k, k, k))
+        n = rng.choice([120, 300])
+        os.makedirs(os.path.join(base, "R"))
+        for k in range(n):
+            t = os.path.join(base, "X", "T%d" % k)
+            os.makedirs(t)
+            for nm in ("p", "q"):
+                with open(os.path.join(t, nm), "w") as f:
+                    f.write("payload %d" % k)
+            for l in ("a", "b", "c")[:2 + rng.below(2)]:
+                os.symlink(t, os.path.join(base, "R", "%s%d" % (l, k)))
+            if rng.chance(1, 4):
+                os.symlink(os.path.join(t, "p"), os.path.join(base, "R", "fp%d" % k))        # a file reachable twice as well
+        env = {"FCLONES_VERIF_DISK_KIND": "ssd", "HOME": base, "XDG_CONFIG_HOME": os.path.join(base, "xdg"),
+               "XDG_CACHE_HOME": os.path.join(base, "cache")}
+        opts = ["-L"] + rng.choice([[], ["--match-links"], ["--rf-over", "0"]])
+        err, ref = run_group(ctx, [b"R"], opts + ["--threads", "1"], env, base)
+        if err:
+            ctx.violation({"kind": "hang" if err == "hang" else "run_failed", "variation": "follow_links_race"}, "base run: " + err,
+                          {"scenario": "follow_links_race", "opts": opts}, found_input=True)
+            continue
+        rkey = treegen.body_key(ref)
+        for ri, threads in enumerate((["4"], ["8"], ["0"], ["main:3"], ["8"], ["0"])):
+            err, groups = run_group(ctx, [b"R"], opts + ["--threads"] + threads, env, base)
+            ctx.distinct(("lrace", i, ri), True)
+            ctx.bump("variation", "follow_links_race")
+            payload = {"scenario": "%d directories under X, each reachable through 2-3 links in R; `fclones group R %s --threads %s` "
+                                   "vs --threads 1; user-wide ignore file with 1500 patterns" % (n, " ".join(opts), threads[0]),
+                       "replay": "./check C13 --tier quick (scenario follow_links_race is rebuilt from the seed)"}
+            if err:
+                ctx.violation({"kind": "hang" if err == "hang" else "run_failed", "variation": "follow_links_race"}, err, payload, found_input=True)
+                break
+            listed = [p for g in groups for p in g["files"]]
+            if len(listed) != len(set(listed)):
+                payload["example"] = [p.decode("utf-8", "replace") for p in sorted(p for p in set(listed) if listed.count(p) > 1)[:4]]
+                ctx.violation({"kind": "body_differs", "variation": "follow_links_race"},
+                              "with -L and --threads %s a path is listed more than once (the walk delivered it twice)" % threads[0],
+                              payload, found_input=True)
+                break
+            if treegen.body_key(groups) != rkey:
+                ctx.violation({"kind": "body_differs", "variation": "follow_links_race"},
+                              "with -L the report body under --threads %s differs from the single-threaded run" % threads[0],
+                              payload, found_input=True)
+                break
+        shutil.rmtree(base, ignore_errors=True)
+
+
 def run(ctx):
     ctx.rule = ("generated trees (duplicate classes over several roots, hard links, sizes around the 4 KiB prefix / 64 KiB "
                 "buffer / 64 KiB suffix threshold of the SSD pin) x variations; an evaluation is one run of the binary; a case "
@@ -292,6 +352,7 @@ def run(ctx):
     # scan orders must print the body fclones::group_files returned
     directed_scenarios(ctx, delay_in_script)
     faulted_pool_scenarios(ctx)
+    follow_links_race_scenarios(ctx)
     # the cache is a performance setting: files that join / leave a class by in-place rewrites between cached runs
     from . import midrun_rt
     midrun_rt.restore_older_check(ctx, ctx.pick(8, 100))
